@@ -7,10 +7,12 @@ import lib
 
 props = [json.loads(l)["id"] for l in open(os.path.join(lib.VERIF, "properties.jsonl"))]
 na = json.load(open(os.path.join(lib.VERIF, "run", "not_applicable.json")))
+# only checks the lead has accepted (green on >= 5 seeds, mutants killed) are registered
+registered = set(json.load(open(os.path.join(lib.VERIF, "run", "registered.json"))))
 checks, not_app = [], []
 for pid in props:
     path = os.path.join(lib.VERIF, "run", "props", pid + ".py")
-    if os.path.exists(path) and pid not in na.get("_disabled", {}):
+    if os.path.exists(path) and pid in registered and pid not in na.get("_disabled", {}):
         spec = importlib.util.spec_from_file_location("p" + pid, path)
         mod = importlib.util.module_from_spec(spec)
         spec.loader.exec_module(mod)
